@@ -24,9 +24,28 @@ def _run(cmd: Sequence[str], input: str | None = None, timeout: int = 3600) -> s
     )
 
 
+class _Lock:
+    """serialise lake invocations that write into lean/.lake (several checks may run in parallel)."""
+
+    def __enter__(self):
+        import fcntl
+
+        (LEAN_DIR / ".lake").mkdir(exist_ok=True)
+        self.fh = open(LEAN_DIR / ".lake" / "verif.lock", "w")
+        fcntl.flock(self.fh, fcntl.LOCK_EX)
+        return self
+
+    def __exit__(self, *a):
+        import fcntl
+
+        fcntl.flock(self.fh, fcntl.LOCK_UN)
+        self.fh.close()
+
+
 def build(targets: Sequence[str]) -> Tuple[bool, str]:
     """`lake build <targets>`; no-op when up to date. Returns (ok, log tail)."""
-    p = _run(["lake", "build", *targets])
+    with _Lock():
+        p = _run(["lake", "build", *targets])
     out = (p.stdout or "") + (p.stderr or "")
     return p.returncode == 0, out[-6000:]
 
